@@ -1025,7 +1025,7 @@ func genStress(t *rapid.T) Case {
 	c.ErrEvery = rapid.SampledFrom([]int{0, 0, 0, 4, 7}).Draw(t, "errEvery")
 	if rapid.Bool().Draw(t, "gc") {
 		c.GC = true
-		c.Fill = rapid.SampledFrom([]int{0, 100, 300, 600}).Draw(t, "fill")
+		c.Fill = rapid.SampledFrom([]int{0, 100, 200, 400}).Draw(t, "fill")
 		c.Rounds = rapid.IntRange(1, 4).Draw(t, "rounds")
 	}
 	return c
